@@ -24,6 +24,15 @@ func layersOf(e error, acc []error) []error {
 	return acc
 }
 
+func baseName(p string) string {
+	for i := len(p) - 1; i >= 0; i-- {
+		if p[i] == '/' {
+			return p[i+1:]
+		}
+	}
+	return p
+}
+
 func countByte(s string, c byte) int {
 	n := 0
 	for i := 0; i < len(s); i++ {
@@ -46,16 +55,30 @@ func H_C15_Report(v *sym.V) {
 	b := g.BuildUpTo("e", v.Param("D", 2), leaves, gen.AllWrappers)
 	e := b.Err
 	tag := ""
-	if v.Choice("decoded", 2) == 1 {
+	switch v.Choice("stage", 4) {
+	case 1:
 		e = wire.Hop(e)
 		tag = "/decoded"
+	case 2:
+		// decoded, then wrapped locally with a new stack
+		e = errors.Wrap(wire.Hop(e), "local")
+		tag = "/decoded+local"
+	case 3:
+		// an inner domain below a stack, another domain on top
+		e = errors.WithDomain(errors.WithStack(errors.WithDomain(e, errors.NamedDomain("inner"))), errors.NamedDomain("outer"))
+		tag = "/domains"
 	}
 	ev, extras := errors.BuildSentryReport(e)
 	layers := layersOf(e, nil)
 	// message = [file:line: ] + redacted verbose rendering + composition header + one line per layer
+	// the innermost recorded source position: the top frame of the deepest layer
+	// (along the single-cause chain) that carries a stack
 	prefix := ""
-	if f, l, _, ok := errors.GetOneLineSource(e); ok {
-		prefix = fmt.Sprintf("%s:%d: ", f, l)
+	for c := e; c != nil; c = errors.UnwrapOnce(c) {
+		if st := errors.GetReportableStackTrace(c); st != nil && len(st.Frames) > 0 {
+			f := st.Frames[len(st.Frames)-1]
+			prefix = fmt.Sprintf("%s:%d: ", baseName(f.Filename), f.Lineno)
+		}
 	}
 	prefix += redact.Sprintf("%+v", e).Redact().StripMarkers() + "\n-- report composition:\n"
 	v.Assert("message-prefix"+tag, sym.HasPrefix(ev.Message, prefix))
